@@ -150,8 +150,9 @@ def _simjobs(prop, bins, quick_cases=700, quick_procs=2, thorough_cases=10000, t
 
 SIM_CASE = ("case = generated BackendOptions (transit buffer capacity, soft/hard limit, grace period, sink flush interval), 1-3 "
             "recording sinks shared between 1-3 loggers, and a program of up to 120 ops (StartThread, Log with sizes relative to the "
-            "queue capacity, ExitThread, Tick, Flush, Retry/Resume, Poll) where every Poll runs generated bursts of further ops at "
-            "the yield points Y1..Y5 inside the backend; followed by a drain; ")
+            "queue capacity -- a tenth each with named arguments / a run-time level --, ExitThread, Tick, Flush, Retry/Resume, Poll) "
+            "where every Poll runs generated bursts of further ops at the yield points Y1..Y5 inside the backend; ended by a drain "
+            "or (a quarter of the cases) by the backend's own exit path BackendWorker::_exit() with statements still queued; ")
 
 PROPERTIES = {
     "C03": {
@@ -255,7 +256,7 @@ PROPERTIES = {
                        "use-after-free."),
         "level_note": SIM_NOTE + " The generator never logs through a logger after its removal was requested and re-creates a name only after the removal completed (documented preconditions).",
         "rule": ("case = generated BackendOptions + program of up to 120 ops (Create, Remove, RemoveBlocking, DropSinkRef, Log, Flush, "
-                 "StartThread, ExitThread, Poll with bursts at Y1..Y5); non-trivial = a removal was requested while statements of that "
+                 "StartThread, ExitThread, Poll with bursts at Y1..Y6); non-trivial = a removal was requested while statements of that "
                  "logger were still unwritten AND a name was re-created"),
         "assumptions": ["CsvWriter not exercised"],
         "jobs": _simjobs("C17", ["sim_bb1k", "sim_ub", "sim_bd1k"], quick_procs=3) + [_rtjob("rt_ub_asan", "C17", quick_cases=12, quick_procs=3), _rtjob("rt_ub_tsan", "C17", quick_cases=40)],
@@ -319,7 +320,8 @@ PROPERTIES = {
         "level_note": WMM_NOTE,
         "rule": ("case = (initial capacity, maximum capacity, 1-50 producer ops = records sized relative to the current node / forcing "
                  "one or several doublings / near max / above max, or shrink requests; consumer read/commit batching; preemption and "
-                 "legal-load-value choices at every atomic access); non-trivial = (consumer observed >= 1 buffer switch AND >= 4 "
+                 "legal-load-value choices at every atomic access; empty() asked by the consumer between reads and, once the finished "
+                 "producer's stores are all visible, required not to hide an unread record); non-trivial = (consumer observed >= 1 buffer switch AND >= 4 "
                  "preemptions) OR a shrink followed by a grow; distinct = FNV hash of the rendered case"),
         "assumptions": ["C++11 axiomatic model as implemented by engine/wmm.h (DESIGN.md Appendix A)",
                         "shrink is only requested with nothing finished-but-uncommitted (quill always commits per statement)"],
@@ -409,7 +411,8 @@ PROPERTIES = {
                        "patterns and LOG_RUNTIME_METADATA. Held on everything generated."),
         "level_note": ("The reference re-implements fmt pad/truncate for ASCII only (specs get ASCII values); %(time) uses simple "
                        "patterns (time caching is C13); single-threaded end-to-end with a user clock."),
-        "rule": ("case = direct (pattern tokens, values, runtime MacroMetadata, named-arg pairs) or end-to-end (logger options, 1-n "
+        "rule": ("case = direct (pattern tokens, values, runtime MacroMetadata, named-arg pairs) or end-to-end (logger options, in a third "
+                 "of the cases a second logger whose options are equal or differ in exactly one field, 1-n "
                  "statements with newline layouts / runtime metadata) or an invalid pattern that must throw; non-trivial = >= 3 "
                  "attributes in non-enum order, or a spec, or a message of >= 2 lines; distinct = FNV hash of the rendered case"),
         "assumptions": ["each attribute at most once per pattern (documented)", "braces in patterns only escaped"],
@@ -467,7 +470,8 @@ PROPERTIES = {
         "level_note": ("Single thread that is also the backend; scalar/string argument types only; JsonConsoleSink shares the code "
                        "path but is not exercised; three known findings (F4, F5, F17) excluded by construction and probed."),
         "rule": ("case = 1-20 statements over 1-6 templates (token sequences of literal / {{ / }} / {name} / {name:spec}) with "
-                 "generated values; non-trivial = >= 2 named placeholders AND (an escaped brace OR a spec), OR a cached template "
+                 "generated values, interleaved with named-argument LOG_BACKTRACE statements that are stored and never written "
+                 "(transit buffer of 4 reused slots); non-trivial = >= 2 named placeholders AND (an escaped brace OR a spec), OR a cached template "
                  "reused after a different one; distinct = FNV hash of the rendered case"),
         "assumptions": ["fmtquill::format at the call site is the formatting reference", "default check_printable_char"],
         "jobs": [
@@ -482,8 +486,8 @@ PROPERTIES = {
         "level_text": ("Exploration: tens of thousands of generated (pattern, zone, instant-sequence) cases per run, built to "
                        "cross second/minute/hour/quarter-hour/noon/midnight/DST boundaries with one long-lived formatter, "
                        "each call compared with libc. Held on everything generated; not a proof."),
-        "level_note": ("Trusts glibc strftime/localtime_r/gmtime_r and the installed tz database; C locale; three known "
-                       "findings (F6, F7, F14) are excluded by construction and probed separately."),
+        "level_note": ("Trusts glibc strftime/localtime_r/gmtime_r and the installed tz database; C locale; the three defects found "
+                       "here (F6, F7, F14) are fixed in /repo, so nothing is excluded from generation any more."),
         "rule": ("case = (GMT|local mode, TZ database zone, strftime pattern of 1-9 tokens with an optional %Qms/%Qus/%Qns "
                  "at any token position, sequence of 1-30 instants 2001..2100 built from boundary-seeking steps) formatted "
                  "by ONE TimestampFormatter instance and compared per call with libc localtime_r/gmtime_r+strftime; "
